@@ -177,35 +177,48 @@ def run_model(suite, lines, shards=NPROC):
 def run_impl(script, lines, shards=NPROC, hashseed='0', args=()):
     return run_sharded([PY, os.path.join(ROOT, 'harness', script)] + list(args), lines, shards, env=impl_env(hashseed))
 
-def run_sharded(cmd, lines, shards, env):
+def _run_chunk(cmd, chunk, env, timeout):
+    """returns (list of results, None), or (None, reason) on timeout / crash of the runner"""
+    try:
+        p = subprocess.run(cmd, input='\n'.join(chunk) + '\n', stdout=subprocess.PIPE, stderr=subprocess.PIPE, env=env, text=True, timeout=timeout)
+    except subprocess.TimeoutExpired:
+        return None, 'timeout'
+    res = p.stdout.split('\n')
+    if res and res[-1] == '': res.pop()
+    if p.returncode != 0 or len(res) != len(chunk):
+        return None, 'rc=%s got %d/%d lines: %s' % (p.returncode, len(res), len(chunk), p.stderr[-500:])
+    return res, None
+
+def _run_careful(cmd, chunk, env, timeout):
+    """a chunk whose run timed out or crashed: bisect down to the offending lines, which get 'X Timeout' / 'X RunnerCrash'"""
+    if len(chunk) == 1:
+        res, err = _run_chunk(cmd, chunk, env, min(timeout, 20))
+        if res is not None: return res
+        return ['X Timeout' if err == 'timeout' else 'X RunnerCrash']
+    res, err = _run_chunk(cmd, chunk, env, max(20, min(timeout, 5 + len(chunk) // 20)))
+    if res is not None: return res
+    mid = len(chunk) // 2
+    return _run_careful(cmd, chunk[:mid], env, timeout) + _run_careful(cmd, chunk[mid:], env, timeout)
+
+def run_sharded(cmd, lines, shards, env, timeout=300):
     n = len(lines)
     if n == 0: return []
     shards = max(1, min(shards, (n + 199) // 200))
     size = (n + shards - 1) // shards
-    procs = []
-    for k in range(shards):
-        chunk = lines[k * size:(k + 1) * size]
-        p = subprocess.Popen(cmd, stdin=subprocess.PIPE, stdout=subprocess.PIPE, stderr=subprocess.PIPE, env=env, text=True)
-        procs.append((p, chunk))
-    # feed & collect (threads to avoid pipe deadlocks)
+    chunks = [lines[k * size:(k + 1) * size] for k in range(shards)]
+    chunks = [c for c in chunks if c]
     import threading
-    outs = [None] * len(procs)
+    outs = [None] * len(chunks)
     def work(i):
-        p, chunk = procs[i]
-        o, e = p.communicate('\n'.join(chunk) + '\n')
-        res = o.split('\n')
-        if res and res[-1] == '': res.pop()
-        if p.returncode != 0 or len(res) != len(chunk):
-            outs[i] = RuntimeError('runner %r failed rc=%s got %d/%d lines\n%s' % (cmd, p.returncode, len(res), len(chunk), e[-2000:]))
-        else:
-            outs[i] = res
-    ths = [threading.Thread(target=work, args=(i,)) for i in range(len(procs))]
+        res, err = _run_chunk(cmd, chunks[i], env, timeout)
+        if res is None:
+            res = _run_careful(cmd, chunks[i], env, timeout)
+        outs[i] = res
+    ths = [threading.Thread(target=work, args=(i,)) for i in range(len(chunks))]
     for t in ths: t.start()
     for t in ths: t.join()
     res = []
-    for o in outs:
-        if isinstance(o, Exception): raise o
-        res += o
+    for o in outs: res += o
     return res
 
 class Check:
